@@ -16,6 +16,29 @@ NOT_APPLICABLE = {
 }
 
 
+TECHNIQUES = {
+    "C01": "deterministic simulation: seeded handler programs on the real event bus (virtual-time loop, tie/stall injection) compared call by call with an executable reference model of the bus",
+    "C02": "deterministic simulation: seeded queue/relay/boolean event programs with adversarial clear timing; history oracle (once-only callback, no overlap of waits, bounded liveness after the last clear)",
+    "C03": "deterministic simulation: seeded switch-report timelines and handler add/remove around deadlines (stalls, same-instant ties); reference model of switch and timed-handler semantics driven by processing order",
+    "C04": "deterministic simulation with fault injection: physical ball world (PinWorld) behind the platform seam, eject outcomes success/fall-back/stuck/late; conservation and bounds as in-run invariants, equality with the world at rest",
+    "C05": "deterministic simulation with fault injection: same physical ball world; bounded liveness after faults stop (devices idle, nothing owed while a source holds a ball, failed ejects retried or reported)",
+    "C06": "deterministic simulation: seeded game histories with requests landing inside held lifecycle queue events; grammar automaton over the lifecycle event trace plus balls-in-play model",
+    "C07": "deterministic simulation: seeded start/stop storms over several modes incl. requests from lifecycle handlers and held queue events; per-mode order automaton and registry-snapshot equality after every stop",
+    "C08": "deterministic simulation: seeded coil configurations and requests on every actuation entry point, raced with software timers; monitor at the platform-driver seam (limits, refusal, switched off in time)",
+    "C09": "deterministic simulation: seeded colour/fade/remove histories at instants inside running fades on direct, software-fade and batched backends; reference stack model and hardware == model once fades finished",
+    "C10": "deterministic simulation: seeded enable/disable/flip/tilt/service/game histories with ties and stalls; installed-rule multiset at the platform seam == rules of the enabled devices at every quiescent point",
+    "C11": "deterministic simulation: seeded multi-player games with persisted devices and events landing around turn changes; per-player shadow model and snapshot isolation of other players",
+    "C13": "deterministic simulation: seeded delay/periodic/timer-device histories incl. nested ops in callbacks and ops exactly on deadlines, loop stalls; reference model of named delays and the drift-free nominal tick grid",
+    "C14": "deterministic simulation with fault injection: firmware models on a simulated serial line (chunking down to 1 byte, noise, latency, lost/duplicated replies) under the real transports and communicators; differential split/un-split replay and flow-control history oracle",
+    "C15": "deterministic simulation with fault injection: real writer threads baton-scheduled against the loop thread over a simulated filesystem with crash points and injected I/O errors; durability/atomicity against the versions handed to save_all, reboot equality",
+    "C16": "deterministic simulation: seeded expressions and variable-change histories with subscribers that re-subscribe like config players; freshness oracle (every change of a read variable notifies) with Python eval over a shadow environment as ground truth",
+    "C17": "deterministic simulation: generated shows and control requests at arbitrary instants incl. exactly on step deadlines, loop stalls; nominal schedule in exact rational arithmetic, once-only events, no residue after stop",
+    "C18": "deterministic simulation: seeded counter/accrual/sequence configurations and op histories with hits on window/timeout deadlines and mode/ball transitions; three small reference state machines",
+    "C19": "deterministic simulation: BCP byte streams fed to the real receive loop in tape-chosen chunks and times over several clients; same (cmd, kwargs) sequence for every chunking, codec round trip on the same traffic",
+    "C20": "deterministic simulation: seeded pricing configurations and coin/start/expiry/toggle/reboot histories racing with expiry timers; exact-fraction ledger oracle where every balance change must have exactly one explanation",
+}
+
+
 def accepted():
     """Checks are claimed only once reviewed and accepted: ids listed in tools/accepted.txt."""
     with open(os.path.join(VERIF, "tools", "accepted.txt")) as f:
@@ -53,14 +76,17 @@ def main():
             "engine": "sim",
             "level_claimed": {
                 "category": meta.get("LEVEL", "exploration"),
-                "text": meta.get("LEVEL_TEXT", "Seeded search over schedules, histories and fault sequences on the real "
-                                 "code under a deterministic simulator; a clean batch is evidence, not proof."),
+                "text": meta.get("LEVEL_TEXT") or (
+                    "Seeded search (%s quick / %s thorough runs, one forked child per seed) over schedules, histories and fault "
+                    "sequences on the real code under the deterministic simulator; a clean batch is evidence, not proof. "
+                    "Case space: %s" % (meta.get("RUNS", {}).get("quick", "?"), meta.get("RUNS", {}).get("thorough", "?"),
+                                        " ".join(str(meta.get("RULE", "")).split())[:700])),
                 "design_ref": "DESIGN.md section 5, %s" % pid,
             },
-            "level_note": meta.get("LEVEL_NOTE", "Trusted: the simulator (SimLoop, SimClock, stubs listed in the evidence "
-                                   "file) and the reference model/oracle written from the property statement."),
-            "technique": meta.get("TECHNIQUE", "deterministic simulation with fault injection (seeded schedule/fault search, "
-                                  "reference-model oracle)"),
+            "level_note": meta.get("LEVEL_NOTE") or (
+                "Trusted: the simulator (SimLoop/SimClock and the stubs listed in the evidence file) and the oracle written from "
+                "the property statement. Assumptions: %s" % "; ".join(str(a) for a in meta.get("ASSUMPTIONS", []))[:900]),
+            "technique": TECHNIQUES.get(pid, meta.get("TECHNIQUE", "deterministic simulation with fault injection")),
         })
     na = []
     for p in props:
